@@ -130,11 +130,19 @@ where
     delegate.end()
 }
 
+/// Values nested deeper than this are not rendered any further (same limit as SimpleGarnishData's
+/// max_char_list_depth), the conversion recurses once per level and must not run the stack out.
+pub(crate) const MAX_CONVERSION_DEPTH: usize = 1000;
+
 fn convert_with_delegate<T, Companion>(delegate: &mut impl ConversionDelegate<T, char, Companion>, from: usize, depth: usize) -> Result<(), DataError>
 where
     T: BasicDataCustom,
     Companion: BasicDataCompanion<T>,
 {
+    if depth >= MAX_CONVERSION_DEPTH {
+        return Ok(());
+    }
+
     Ok(match delegate.get_data_at(from)? {
         BasicData::Unit => {
             delegate.push_char('(')?;
